@@ -167,11 +167,11 @@ func c15Allowed(sources, keys []string, source, key string) bool {
 func TestC15Auth(t *testing.T) {
 	rep := vh.NewReport("C15", "authorisation of every validated route (exhaustive enumeration against the real server)")
 	defer rep.Write()
-	srcLists := [][]string{nil, {"a"}, {"a", "b/c"}}
+	srcLists := [][]string{nil, {"a"}, {"a", "b/c", "n"}} // n: an allowed source that has no directory, hence no gate keeper, when the first request naming a case variant of it arrives
 	// (a key may contain ':' - the project's own client ids are key:uid - so the pair (a, "k:x")
 	// and the pair ("a:k", x) must not be confused)
 	keyLists := [][]string{nil, {"k"}, {"k", "l"}, {"k", "k:x"}}
-	srcVals := []string{"a", "b/c", "z", "", "A", "a/", "b", "a.*", ".*", "b/c/..", "a b", "a:k"}
+	srcVals := []string{"a", "b/c", "z", "", "A", "a/", "b", "a.*", ".*", "b/c/..", "a b", "a:k", "N"}
 	keyVals := []string{"k", "l", "wrong", "", "K", "k ", ".*", "k:x", "x"}
 	type route struct {
 		method, path string
@@ -315,10 +315,22 @@ func TestC15Auth(t *testing.T) {
 						}
 					}
 				}
+				// a sender whose first request comes after all of the above (among them refused requests
+				// naming case variants of it) is served under its own name
+				if !replay && c15Allowed(sl, kl, "n", "k") {
+					meta := []map[string]interface{}{{"n": "late", "r": "", "p": "", "f": vh.MD5([]byte("LATE")), "t": "1293753600+5", "s": 4, "b": 0, "e": 4}}
+					mb, _ := json.Marshal(meta)
+					st, _, err := r.do(rawReq{Method: "PUT", Path: "/data?v=1", Headers: map[string]string{"X-STS-SrcName": "n", "X-STS-Key": "k", "X-STS-MetaLen": fmt.Sprint(len(mb)), "X-STS-Sep": "/"}, Body: string(mb) + "LATE"})
+					synctest.Wait()
+					rep.Executions++
+					if b, rerr := os.ReadFile(filepath.Join(r.dirs.Final, "n", "late")); err != nil || st != 200 || rerr != nil || string(b) != "LATE" {
+						rep.Violate("", fmt.Sprintf("sources=%v keys=%v: after the enumerated requests (refused ones among them) the authorised source n sends its first file: status %d err %v, and the file is not delivered to final/n/late; receiver directories:\n%s", sl, kl, st, err, vh.ListString(filepath.Join(r.root, "sandbox"))), c15Case{Sources: sl, Keys: kl, Source: "n", Key: "k"})
+					}
+				}
 			})
 		}
 	}
-	rep.Bound = "source lists {none, [a], [a, b/c]} x key lists {none, [k], [k, l]} x presented source {a, b/c, z, none, A, a/, b, a.*, .*, b/c/.., 'a b'} x presented key {k, l, wrong, none, K, 'k ', .*} x {headers, query string} x 11 route/method pairs (data, data-recovery, validate, partials, static GET/DELETE and wrong methods); reference: the three-line predicate of the statement; refused requests: before/after listing of all receiver directories and an authorised sender's poll + partials answers (the sender has a file held for its predecessor and a file that failed validation: known to the receiver in memory only)"
+	rep.Bound = "source lists {none, [a], [a, b/c, n]} x key lists {none, [k], [k, l]} x presented source {a, b/c, z, none, A, a/, b, a.*, .*, b/c/.., 'a b', a:k, N} x presented key {k, l, wrong, none, K, 'k ', .*} x {headers, query string} x 11 route/method pairs (data, data-recovery, validate, partials, static GET/DELETE and wrong methods); reference: the three-line predicate of the statement; refused requests: before/after listing of all receiver directories and an authorised sender's poll + partials answers (the sender has a file held for its predecessor and a file that failed validation: known to the receiver in memory only); at the end the allowed source n, of which only the refused variant N was seen so far, sends its first file and must find it under final/n"
 }
 
 // ---------------------------------------------------------------- C15: requests during start-up recovery
